@@ -1237,10 +1237,25 @@ def ring_edges(ring):
     return [(ring[i], ring[(i + 1) % len(ring)]) for i in range(len(ring))]
 
 
+def ring_is_simple(ring):
+    """no two non-adjacent edges of the ring meet (exact)"""
+    es = ring_edges(ring)
+    n = len(es)
+    for i in range(n):
+        for j in range(i + 1, n):
+            if j == i + 1 or (i == 0 and j == n - 1):
+                continue
+            if segs_cross(es[i][0], es[i][1], es[j][0], es[j][1]):
+                return False
+    return True
+
+
 def gen_polygon_rings(rng):
     """exterior ring plus 0 … 4 holes (each a small star-shaped polygon with its own vertex count and orientation, strictly
     inside the exterior and disjoint from the other holes — checked exactly)"""
     ext = gen_polygon(rng)
+    while not ring_is_simple(ext):
+        ext = gen_polygon(rng)
     rings = [ext]
     want = rng.choice([0, 1, 2, 2, 3, 3, 4])
     if want == 0:
@@ -1258,7 +1273,7 @@ def gen_polygon_rings(rng):
         cy = min(ys) + h_ * Fr(rng.randint(2, 14), 16)
         size = min(w_, h_) * Fr(rng.randint(1, 3), 64)
         hole = [(cx + size * Fr(rng.randint(4, 8), 8) * DIRS16[i][0], cy + size * Fr(rng.randint(4, 8), 8) * DIRS16[i][1]) for i in idx]
-        if not all(poly_contains(ext, v_) is True for v_ in hole):
+        if not ring_is_simple(hole) or not all(poly_contains(ext, v_) is True for v_ in hole):
             continue
         others = [e_ for r_ in rings for e_ in ring_edges(r_)]
         if any(segs_cross(a, b, c_, d) for a, b in ring_edges(hole) for c_, d in others):
